@@ -180,7 +180,7 @@ class _Scope(object):
         return False
 
 
-def concretize(val, model, max_len=4096):
+def concretize(val, model, max_len=48):
     """symbolic value -> concrete python value under a model (for replay)"""
     def ev(e):
         r = model.eval(e, model_completion=True)
@@ -193,7 +193,9 @@ def concretize(val, model, max_len=4096):
         n = ev(val.n)
         if not isinstance(n, int) or n < 0:
             return None
-        items = [ev(val.at(z3.IntVal(k))) for k in range(min(n, max_len))]
+        if n > max_len:
+            return dict(kind=val.kind, length=n, note='too long to list')
+        items = [ev(val.at(z3.IntVal(k))) for k in range(n)]
         if val.kind in ('bytes', 'bytearray'):
             items = [x % 256 if isinstance(x, int) else 0 for x in items]
             return dict(kind=val.kind, hex=bytes(items).hex(), length=n)
